@@ -226,11 +226,25 @@ def shrink(case, pred, budget=25):
     return depsgen.Case(case.names, case.rules, ops)
 
 
+def canon_ran(line):
+    """The order in which redo-unlocked is handed several targets is a hash-set order (unspecified): the executed
+    scripts are compared as a multiset."""
+    return re.sub(r"ran=(\S*)", lambda m: "ran=" + "_".join(sorted(x for x in m.group(1).split("_") if x)), line)
+
+
 def run_batch(cases, defects):
     reqs = [c.request(defects) for c in cases]
-    model = [[x.strip() for x in m.split(" | ")] for m in run_lines(MODEL, reqs)]
+    model = [[canon_ran(x.strip()) for x in m.split(" | ")] for m in run_lines(MODEL, reqs)]
     with ThreadPoolExecutor(max_workers=14) as ex:
-        real = list(ex.map(depsgen.run_real, cases))
+        real = [[canon_ran(l) for l in r] for r in ex.map(depsgen.run_real, cases)]
+    # a disagreement may be due to that unspecified order only: try the model with the reversed order
+    bad = [i for i, (m, r) in enumerate(zip(model, real)) if m != r]
+    if bad:
+        alt = run_lines(MODEL, [cases[i].request(defects.ljust(3, "0") + "1") for i in bad])
+        for i, a in zip(bad, alt):
+            am = [canon_ran(x.strip()) for x in a.split(" | ")]
+            if am == real[i]:
+                model[i] = am
     return model, real
 
 
